@@ -247,6 +247,9 @@ class SetRunner(object):
         elif op in ("binop", "rbinop", "iop"):
             sym = rng.choice(["&", "|", "-", "^"])
             k, o, items = self.other(["ss", "set", "frozenset"] if op != "rbinop" else ["set", "frozenset", "ss"])
+            if op in ("iop", "binop") and rng.random() < 0.2:
+                # aliased operand: s -= s, s ^= s, s & s ... (an in-place operator must not iterate what it mutates)
+                k, o, items = "alias-of-s", s, list(m.xs)
             mm = self.MS(items, ordered=ordered)
             fwd = {"&": lambda: m.intersection(items), "|": lambda: m.union(items), "-": lambda: m.difference(items),
                    "^": lambda: m.symmetric_difference(items)}
